@@ -638,3 +638,38 @@ def advance_of(o, counter="curr_op_seq"):
         if k == 1 and isinstance(t, tuple) and t[0] == "f" and t[2] == counter:
             return c0
     return None
+
+
+def check_p2sh_once(ctx, fb, prog, rule="R03.5"):
+    """BIP16 evaluates the redeem script once: when the stepper's end-of-script epilogue enters the redeem script (the new script
+    is built from the saved stack's top element), the session must not be marked P2SH again - whatever the redeem script looks
+    like. Read off the G-SYM paths of the stepper with its same-file helpers inlined."""
+    st = fb.fn("StepScript", file="debugger/interpreter.cpp")
+
+    def assume(term, conds):
+        if isinstance(term, tuple) and term[0] == "f" and term[2] == "tce":
+            return False
+        if isinstance(term, tuple) and term[:2] == ("ap", "<") and any(isinstance(x, tuple) and x[0] == "f" and x[2] == "pc" for x in term[2:]):
+            return False
+        return None
+    X = symx.Explorer(prog, assume=assume, inline=lambda fn, n: fn.file == st.file and fn.rec is None and fn.name != st.name, transparent=lambda n: True)
+    try:
+        outs = X.explore(st, params={st.params[0]["n"]: ("a", "env")}, limit=20000)
+    except symx.Unsupported as e:
+        raise AnalysisBroken("set-up rules: stepper epilogue: %s" % e)
+    ctx.site(len(outs))
+    entered = []
+    for o in outs:
+        if o.ret != C(1):
+            continue
+        sc = [v for (k, v) in o.heap.items() if k[1] == "script"]
+        if sc and has_sub(sc[-1], lambda y: is_field(y, "p2shstack")):
+            ip = [v for (k, v) in o.heap.items() if k[1] == "is_p2sh"]
+            entered.append((o, ip[-1] if ip else None))
+    if not entered:
+        raise AnalysisBroken("set-up rules: no path of the stepper enters a redeem script taken from the saved stack")
+    bad = [(o, ip) for (o, ip) in entered if ip != C(0)]
+    ctx.inst(not bad, rule, "p2sh-continuation-once", st.loc(),
+             "on all %d paths that enter the redeem script the P2SH mark is cleared" % len(entered),
+             "after entering the redeem script the session's P2SH mark is %s: a redeem script that itself has the form HASH160 <20> EQUAL is followed by yet another "
+             "script taken from the stack, which no listing shows and BIP16 does not execute" % (symx.show(bad[0][1])[:80] if bad and bad[0][1] is not None else "left as it was"))
